@@ -1557,8 +1557,10 @@ def gen_c13_chain(rng, n):
             for r in regs:
                 b.add(f"frame {r}", focus=True)
             # the answers of an object are its own too (a shared distribution accessor would answer for the other one)
+            # (only `var`: it goes through the distribution object but is compared with a tolerance; percentile and
+            # ecdf queries sit on share / value boundaries that quotients from a preceding division can blur)
             for r in (h, d):
-                b.add(f"q {r} {rng.choice(['median', 'var', 'perc 25', 'ecdf right 1'])}", focus=True)
+                b.add(f"q {r} var", focus=True)
         b.tags.update(kind="chain", op=kind, derived=kd)
         progs.append(b.program())
     return progs
